@@ -46,6 +46,9 @@ RelVerdict(e) ==
   \cup (IF e.raised = 0 /\ e.base6 + Tol6(e.base6) < e.moment6 THEN {"FirstMomentBound"} ELSE {})
   \cup (IF e.raised = 0 /\ e.min6 >= 0 /\ e.base6 + Tol6(e.base6) + Tol6(e.min6) < e.min6 THEN {"NotBelowDiscreteMinimum"} ELSE {})
   \cup (IF e.raised = 0 /\ ~Close6(e.front6, e.back6) THEN {"FrontEndDispatch"} ELSE {})
+  \* ... the status that accompanies the distance included: a back-end object that served another pair before reports, for
+  \* this pair, what the front-end (a new object) reports
+  \cup (IF e.raised = 0 /\ e.status_same = 0 THEN {"FrontEndDispatch"} ELSE {})
 EmdVerdict(e) ==
   (IF e.raised = 1 THEN {"DistanceTotal"} ELSE {})
   \cup (IF e.raised = 0 /\ ~(Abs(e.d6 - e.expected6) <= 20 + e.expected6 \div 10000) THEN {"EmdMassTimesDistance"} ELSE {})
